@@ -1,6 +1,7 @@
 import Snel.Lemmas.ShardWal
 import Snel.Lemmas.WalBuf
 import Snel.Lemmas.ShardFail
+import Snel.Lemmas.ShardFailIndexed
 /-!
 # C01 — applied writes survive any crash and restart, exactly once
 
@@ -68,6 +69,13 @@ theorem C01_index_is_commit_point (cap k : Nat) (ops : List Op) (h : ∀ o ∈ o
         | shutdown => exact restart_indexed (shutdown_indexed hs) (drainAll_jobs_nil _)
       simpa [runOps] using ih (step s o) hstep (fun x hx => hall x (by simp [hx]))
   exact key ops _ (init_indexed cap k) h
+
+/-- The commit-point statement extends to histories in which flushes FAIL (`FOp.fail`, any number,
+anywhere): a failed flush creates no directory and registers nothing, so every directory is still
+named by the index or is the one the flush worker has just written. -/
+theorem C01_index_is_commit_point_with_failed_flushes (cap k : Nat) (ops : List FOp)
+    (h : ∀ o ∈ ops, o.noKill = true) : Indexed (runF (Shard.init cap k) ops) :=
+  runF_indexed ops (init_indexed cap k) h
 
 /-- Non-vacuity / the repaired behaviour: a kill right after the segment files were written
 (before the index entry) — the directory exists, the restart does not serve it, the WAL does. -/
